@@ -336,6 +336,15 @@ fn dispatch(name: &str, a: &mut Args) -> String {
 			}
 		},
 		"update_channel_probe" => update_channel_probe(a),
+		"socket_address_len" => {
+			let (k, n) = (a.u8(), a.u8());
+			format!("{}", lightning::ln::msgs::verif_hooks::socket_address_len(k, n))
+		},
+		"revoked_htlc_claim_amount" => {
+			let (amt, offered) = (a.u64(), a.bool());
+			let (s, v) = lightning::verif::package::revoked_htlc_claim_amount(amt, offered);
+			format!("{} {}", s, v)
+		},
 		"node_announcement_probe" => node_announcement_probe(a),
 		"secret_store_honest" => {
 			// provide the seed-derived secrets for the top m indices, then read every one back
